@@ -32,6 +32,9 @@ def flag (j : Json) (k : String) : Bool :=
 * `matrix`  `{names:[..],strict,pinned?}` → `{"rows":[one string per name, one character per column], "conv":[..], "conventional":[..]}`
 * `lex`     `{a}` → the split name and the class flags
 * `match`   `{v,expr}` → `{"r": "match"|"nomatch"|"M"|"I", "tokens":[..]}`
+* `legal`   `{expr}` → `{"r": "relational"|"plain"|"bad"}` (`Eups.isLegalRelativeVersion`)
+* `list`    `{version, tags:[..], stacks:[[{ver,tags:[..]}..]..]}` → `{"products": [[stack, version]..] | {"err"}, "find": .., "entry": ..}` (`Eups.findProducts`; with `preferred:[..]` also `findProduct(name, version)` for a relational argument and `findProductFromVRO(name, version, vro=[version, versionExpr])`)
+* `repos`   `{repos:[[..]..],pinned?}` → `{"r": [repository, version] | null | {"err"}}` (`distrib.Repositories.findPackage(product, Tag latest)`)
 * `latest`  `{names:[..]}` → `{"idx": n | null}` or `{"err": ..}`
 * `stacks` / `stacksboth` (`{"cache":..,"db":..}`)  `{stacks:[[..]..],expr,minver?,db?}` → `{"latest", "latest_min", "preferred": [stack, version] | null | {"err"},
              "matches": [[stack, version]..] | {"err"}}`; `db`: the database branch (each stack in string order) -/
@@ -66,6 +69,44 @@ def handle : Handler := fun j => do
     | .ok true => pure (Json.mkObj [("r", "match"), ("tokens", toks)])
     | .ok false => pure (Json.mkObj [("r", "nomatch"), ("tokens", toks)])
     | .error er => pure (Json.mkObj [("r", resCode (.error er)), ("tokens", toks)])
+  | "legal" =>
+    let e ← jstr j "expr"
+    pure (Json.mkObj [("r", match isLegalRelativeVersion e with
+      | .relational => "relational" | .plain => "plain" | .badSyntax => "bad")])
+  | "list" =>
+    let verArg ← jstr j "version"
+    let tags ← jstrs j "tags"
+    let stacks ← (← jarr j "stacks").mapM fun st => do
+      (← st.getArr?).toList.mapM fun d => do
+        pure ({ ver := ← jstr d "ver", tags := ← jstrs d "tags" } : Decl)
+    let preferred := match jstrs j "preferred" with | .ok l => l | .error _ => []
+    let ref (i : Nat) (v : Str) : Json := Json.arr #[Json.num i, ofStr v]
+    let products : Json := match listProducts verArg tags stacks with
+      | .error er => Json.mkObj [("err", er.name)]
+      | .ok .badSyntax => Json.mkObj [("err", "BadExpr")]
+      | .ok (.products l) => Json.arr (l.map fun (i, v) => ref i v).toArray
+    let find : Json := match findProductExpr preferred verArg stacks with
+      | .error er => Json.mkObj [("err", er.name)]
+      | .ok none => Json.null
+      | .ok (some (i, v)) => ref i v
+    let entry : Json := match requestEntry verArg stacks with
+      | .error er => Json.mkObj [("err", er.name)]
+      | .ok .badSyntax => Json.mkObj [("err", "BadExpr")]
+      | .ok .nothing => Json.arr #[Json.null, Json.null]
+      | .ok (.found byExpr i v) => Json.arr #[ref i v, Json.str (if byExpr then "versionExpr" else "explicit")]
+    -- `eups admin listCache -v`: the versions of every stack sorted by the comparator
+    let sorted : Json := Json.arr ((versOf stacks).map fun vs => match lexPairs vs with
+      | .error er => Json.mkObj [("err", er.name)]
+      | .ok ps => ofStrs ((sortVers ps).map (·.1))).toArray
+    pure (Json.mkObj [("products", products), ("find", find), ("entry", entry), ("sorted", sorted)])
+  | "repos" =>
+    let repos ← (← jarr j "repos").mapM fun st => do
+      (← st.getArr?).toList.mapM fun v => do pure (Str.ofString (← v.getStr?))
+    let passes := match j.getObjValAs? Nat "passes" with | .ok n => n | .error _ => 1
+    match (if pinned then latestReposPinned passes repos else latestAcross repos) with
+    | .error er => pure (Json.mkObj [("r", Json.mkObj [("err", er.name)])])
+    | .ok none => pure (Json.mkObj [("r", Json.null)])
+    | .ok (some (i, v)) => pure (Json.mkObj [("r", Json.arr #[Json.num i, ofStr v])])
   | "latest" =>
     let names ← jstrs j "names"
     match latest names with
